@@ -102,6 +102,30 @@ func listDigestFiles(dir string) map[string]bool {
 	return out
 }
 
+// present tells whether the file of a digest exists, by path lookup. A directory listing that runs while another
+// goroutine replaces a file by rename(tmp, name) - what every manifest put of an existing digest does - can miss that
+// name although it resolves at every instant (observed on this tmpfs: 1 listing in 1.3 million); a name missing from a
+// listing therefore only counts as gone when the path does not resolve either.
+func present(dir, digest string) bool {
+	if !strings.Contains(digest, ":") {
+		return false
+	}
+	_, err := os.Lstat(filepath.Join(dir, "blobs", digestKey(digest)))
+	return err == nil
+}
+
+// recheck completes a snapshot entry that the listing may have missed: the file is read by path.
+func (s snap) recheck(dir, key string) (string, bool) {
+	if h, ok := s.files[key]; ok {
+		return h, true
+	}
+	h, ok := fileHash(filepath.Join(dir, "blobs", key))
+	if ok {
+		s.files[key] = h
+	}
+	return h, ok
+}
+
 // reachInfo tells how a digest was first reached.
 type reachInfo struct {
 	entry  int    // index.json entry (position) the walk started from
